@@ -242,10 +242,21 @@ def check_c15(tier, t0):
     real = {"optA": allnames[0], "optB": allnames[1], "optC": allnames[2], "bogus": "frobnicate", "bogus2": "__class__x"}
     names = ["optA", "optB", "optC"][:nreal] + ["bogus"]
     known = names[:-1]
+    model_only = None
+    if tier == "thorough":
+        # the design alone on the larger configuration (two lines of up to two tags each): the fold's properties are checked on
+        # every text, nothing is exported (hundreds of thousands of texts: measured, the replay below could not hold them)
+        with open(os.path.join(d, "PragmaBig.cfg"), "w") as f:
+            f.write("SPECIFICATION Spec\nCONSTANTS\n Names = {%s}\n Known = {%s}\n MaxLines = 2\n MaxTags = 2\n"
+                    "INVARIANT LastWins\nINVARIANT UnnamedUntouched\nINVARIANT InertLinesInert\nCHECK_DEADLOCK FALSE\n"
+                    % (", ".join('"%s"' % n for n in names), ", ".join('"%s"' % n for n in known)))
+        model_only = run_tlc(os.path.join(SPEC, "Pragma.tla"), os.path.join(d, "PragmaBig.cfg"), d, workers=8, timeout=3000)
+        if not model_only.ok:
+            raise MachineryError("Pragma.tla (larger configuration, model only): " + model_only.out[-3000:])
     with open(os.path.join(d, "Pragma.cfg"), "w") as f:
-        f.write("SPECIFICATION Spec\nCONSTANTS\n Names = {%s}\n Known = {%s}\n MaxLines = 2\n MaxTags = %d\n"
+        f.write("SPECIFICATION Spec\nCONSTANTS\n Names = {%s}\n Known = {%s}\n MaxLines = 2\n MaxTags = 1\n"
                 "INVARIANT LastWins\nINVARIANT UnnamedUntouched\nINVARIANT InertLinesInert\nINVARIANT Export\nCHECK_DEADLOCK FALSE\n"
-                % (", ".join('"%s"' % n for n in names), ", ".join('"%s"' % n for n in known), 2 if tier == "thorough" else 1))
+                % (", ".join('"%s"' % n for n in names), ", ".join('"%s"' % n for n in known)))
     r = run_tlc(os.path.join(SPEC, "Pragma.tla"), os.path.join(d, "Pragma.cfg"), d, workers=8, timeout=1200)
     if not r.ok:
         raise MachineryError("Pragma.tla: " + r.out[-3000:])
@@ -298,8 +309,8 @@ def check_c15(tier, t0):
                 expected[s["real"][n]] = bool(s[base_name][n])
             src_dir = "\n".join(lines) + ("\n" if lines else "") + PROBE
             neutral = "\n".join(("# removed" if ("pytrapic:" in l and l.lstrip().startswith("#")) else l) for l in lines) + ("\n" if lines else "") + PROBE
-            jobs.append({"src": src_dir, "options": caller})
-            jobs.append({"src": neutral, "options": expected})
+            jobs.append({"src": src_dir, "options": caller, "slim": True})
+            jobs.append({"src": neutral, "options": expected, "slim": True})
             meta.append((s, lines, caller, expected))
     res = cw.compile_many(jobs, chunksize=32)
     rep = Reporter("C15")
@@ -352,14 +363,14 @@ def check_c15(tier, t0):
         # same line numbers (they show in original_code_as_comment); code lines that merely mention the word stay
         neutral_dl = "".join(("# removed" if ("pytrapic:" in l and l.lstrip().startswith("#")) else l) + "\n" for l in lines)
         # (a1) directives in the library only: nothing is set
-        jobs2.append({"seq": [{"src": {"": MAIN_LIB, "lb": dl + LIBTXT}, "options": caller}, {"src": {"": MAIN_LIB, "lb": neutral_dl + LIBTXT}, "options": caller}]})
+        jobs2.append({"seq": [{"src": {"": MAIN_LIB, "lb": dl + LIBTXT}, "options": caller, "slim": True}, {"src": {"": MAIN_LIB, "lb": neutral_dl + LIBTXT}, "options": caller, "slim": True}]})
         meta2.append(("library_only", lines, caller, caller))
         # (a2) directives in the main file, the opposite ones in a library listed after it: the main file's count
-        jobs2.append({"seq": [{"src": {"": dl + MAIN_LIB, "lb": LIBTXT + "# pytrapic: " + ", ".join(("no-" if expected[k] else "") + k for k in cw.OPTION_NAMES) + "\n"}, "options": caller},
-                              {"src": {"": neutral_dl + MAIN_LIB, "lb": LIBTXT}, "options": expected}]})
+        jobs2.append({"seq": [{"src": {"": dl + MAIN_LIB, "lb": LIBTXT + "# pytrapic: " + ", ".join(("no-" if expected[k] else "") + k for k in cw.OPTION_NAMES) + "\n"}, "options": caller, "slim": True},
+                              {"src": {"": neutral_dl + MAIN_LIB, "lb": LIBTXT}, "options": expected, "slim": True}]})
         meta2.append(("main_and_library", lines, caller, expected))
         # (b) options omitted, then a second call without directives in the same process
-        jobs2.append({"seq": [{"src": dl + PROBE, "options": None}, {"src": PROBE, "options": None}]})
+        jobs2.append({"seq": [{"src": dl + PROBE, "options": None, "slim": True}, {"src": PROBE, "options": None, "slim": True}]})
         meta2.append(("omitted", lines, None, None))
     res2 = cw.compile_many(jobs2, chunksize=8)
     # expected vector for (b): defaults overlaid with what the specification says the text sets; the text sets option o to b iff the
@@ -403,11 +414,12 @@ def check_c15(tier, t0):
         raise MachineryError("binding self-test failed: the probe does not react to a directive")
     cov = {"states": r.distinct, "transitions": r.generated, "traces_validated_against_impl": len(meta), "evaluations": len(meta),
            "distinct_nontrivial": nontrivial,
-           "rule": "TLC enumerates Pragma.tla: every directive text of up to 2 lines x 5 line forms x up to %d tags over %d real option names (seeded "
+           "rule": "TLC enumerates Pragma.tla: every directive text of up to 2 lines x 5 line forms x one tag over %d real option names (seeded "
                    "choice of which) + an unknown name x negation x '-'/'_' spelling, and checks the fold's properties on each; every text is rendered "
                    "(seeded blanks) onto a probe program and compiled with all-false and all-true caller options; the result must equal compiling "
-                   "with the specification's effective options through the API; non-trivial = has an acting directive line with a tag" % (2 if tier == "thorough" else 1, nreal),
-           "real_options_used": {k: real[k] for k in known}, "scenarios_over_all_eight_options": len(scen8), "states_8": r8.distinct, "probe_distinct_outputs_over_256_vectors": distinct_outputs,
+                   "with the specification's effective options through the API; non-trivial = has an acting directive line with a tag; thorough: TLC also checks the fold on every "
+                   "text of two lines with up to two tags each (model only), and the one-line texts over all eight names carry up to two tags" % nreal,
+           "real_options_used": {k: real[k] for k in known}, "scenarios_over_all_eight_options": len(scen8), "model_only_states_two_lines_two_tags": (model_only.distinct if model_only is not None else None), "states_8": r8.distinct, "probe_distinct_outputs_over_256_vectors": distinct_outputs,
            "scenarios_in_other_placements": nextra, "placements": ["main file (string source)", "library module only", "main file + opposite directives in a library", "options argument omitted, followed by a second call"],
            "samples": [{"lines": meta[k][1], "caller": "all-false" if not meta[k][2]["compact"] else "all-true", "expected_effective": meta[k][3]} for k in (0, len(meta) // 2, len(meta) - 1)],
            "known_findings_hit": sorted(rep.known)}
